@@ -1,6 +1,7 @@
 package h
 
 import (
+	"unsafe"
 	"fmt"
 	"runtime"
 	"sync"
@@ -43,6 +44,14 @@ type P5 struct{ I interface{} }
 
 // P6 is a component type that is itself a pointer type (to a pointer-free struct).
 type P6 = *Obj
+
+// references of the less common kinds: a closure, a channel, an unsafe.Pointer
+type P7 struct{ F func() *Obj }
+type P8 struct{ C chan *Obj }
+type P9 struct {
+	N uint64
+	U unsafe.Pointer
+}
 
 // Plain components used to move rows between tables.
 type V1 struct{ X uint64 }
